@@ -1506,3 +1506,693 @@ Proof.
   - inversion H; subst. apply quiet_pf; [exact Hc|apply quiet_set_pg].
   - inversion H; subst. apply quiet_pf; [exact Hc|apply quiet_set_pg].
 Qed.
+
+(* ---- the loop -------------------------------------------------------------------------------- *)
+Lemma prelude_quiet lang v : quiet v (snd (run_prelude lang v)).
+Proof.
+  split; [rewrite prelude_st; apply pre_state_pos|]. split; [apply prelude_ca|].
+  exists []. split; [apply prelude_log|reflexivity].
+Qed.
+
+Lemma set_page_err_quiet v msg : quiet v (set_page_err v msg).
+Proof.
+  unfold set_page_err. destruct msg; [apply quiet_set_pg|].
+  eapply quiet_trans; [apply quiet_set_pg|apply quiet_taint].
+Qed.
+Lemma errcheck_quiet v1 b s v2 b' s' : run_errcheck (v1, b, s) = (v2, b', s') -> quiet v1 v2.
+Proof.
+  unfold run_errcheck. destruct s as [|e m|n|]; try (intros H; inversion H; subst; apply quiet_refl).
+  destruct (_ && _); intros H; inversion H; subst; apply set_page_err_quiet.
+Qed.
+Lemma dead_check_quiet v v3 b s : dead_check v = (v3, b, s) -> quiet v v3.
+Proof.
+  unfold dead_check. destruct (negb _); [intros H; inversion H; subst; apply quiet_set_st; reflexivity|].
+  destruct (getf _ FLAG_TERMINATE); [intros H; inversion H; subst; apply quiet_refl|].
+  destruct (where_sym (v_st v)); [intros H; inversion H; subst; apply quiet_refl|].
+  destruct (bytes_eqb _ catch_sym); intros H; inversion H; subst; [apply quiet_refl|apply quiet_set_pg].
+Qed.
+
+Lemma run_post_follows fuel rs sep lang :
+  (forall lang b v v' b' s, cache_ok (v_ca v) -> run fuel rs sep lang b v = (v', b', s) -> pos_follows v v') ->
+  forall v1 b s v' b' s', cache_ok (v_ca v1) ->
+    run_post fuel rs sep lang (v1, b, s) = (v', b', s') -> pos_follows v1 v'.
+Proof.
+  intros IH v1 b s v' b' s' Hc H. unfold run_post in H.
+  destruct (run_errcheck (v1, b, s)) as [[v2 b3] s2] eqn:He.
+  pose proof (errcheck_quiet _ _ _ _ _ _ He) as Q1.
+  pose proof (quiet_cache_ok _ _ Q1 Hc) as Hc2.
+  destruct s2; try (inversion H; subst; apply quiet_pf; assumption).
+  destruct b3 as [|x b3].
+  - destruct (dead_check v2) as [[v3 b4] s3] eqn:Hd.
+    pose proof (dead_check_quiet _ _ _ _ Hd) as Q2.
+    pose proof (quiet_trans _ _ _ Q1 Q2) as Q12.
+    destruct s3; try (inversion H; subst; apply quiet_pf; assumption).
+    destruct b4 as [|y b4]; [inversion H; subst; apply quiet_pf; assumption|].
+    eapply pf_quiet_l; [exact Hc|exact Q12|]. eapply IH; [|exact H]. apply (quiet_cache_ok _ _ Q12 Hc).
+  - eapply pf_quiet_l; [exact Hc|exact Q1|]. eapply IH; [exact Hc2|exact H].
+Qed.
+
+(* THE invariant: whatever the code, the machine (with a cache of at least one frame), the fuel
+   and the outcome (including errors, SPanic and SFuel), the position after `run` is the fold of the
+   code's move table over the targets of the EvMove events this run appended to the log *)
+Theorem run_follows : forall fuel rs sep lang b v v' b' s,
+  cache_ok (v_ca v) -> run fuel rs sep lang b v = (v', b', s) -> pos_follows v v'.
+Proof.
+  induction fuel as [|fuel IH]; intros rs sep lang b v v' b' s Hc H.
+  - rewrite run_O in H. inversion H; subst. apply pf_refl. exact Hc.
+  - rewrite run_unfold_gen in H.
+    destruct (getf (v_st v) FLAG_TERMINATE); [inversion H; subst; apply pf_refl; exact Hc|].
+    pose proof (prelude_quiet lang v) as Q0.
+    remember (snd (run_prelude lang v)) as v0 eqn:Ev0. remember (fst (run_prelude lang v)) as lang0 eqn:El0.
+    pose proof (quiet_cache_ok _ _ Q0 Hc) as Hc0.
+    eapply pf_quiet_l; [exact Hc|exact Q0|]. clear Q0 Ev0 El0.
+    unfold run_body in H.
+    destruct (op_split b) as [[op b1]|e|n]; try (inversion H; subst; apply pf_refl; exact Hc0).
+    assert (Hpost : forall h, (let '(v1, _, _) := h in pos_follows v0 v1) ->
+              (if op =? op_HALT then h else run_post fuel rs sep lang0 h) = (v', b', s) -> pos_follows v0 v').
+    { intros [[v1 b2] s1] F1 H1. destruct (op =? op_HALT); [inversion H1; subst; exact F1|].
+      eapply pf_trans; [exact F1|]. eapply (run_post_follows fuel rs sep lang0); [|apply F1|exact H1].
+      intros. eapply IH; eassumption. }
+    destruct (parse_args op b1) as [[i b2]|e|n].
+    + destruct (exec_instr rs sep lang0 i b2 (vlog v0 (EvInstr op))) as [[v1 b3] s1] eqn:Hx.
+      apply (Hpost (v1, b3, s1)); [|exact H].
+      eapply pf_quiet_l; [exact Hc0|apply (quiet_vlog v0 (EvInstr op)); exact I|].
+      eapply exec_instr_follows; [|exact Hx]. exact Hc0.
+    + apply (Hpost (v0, b1, SErr EGen None)); [apply pf_refl; exact Hc0|exact H].
+    + inversion H; subst. apply pf_refl. exact Hc0.
+Qed.
+
+(* ================================================================================== *)
+(* Part D — C04 for requests                                                            *)
+(* ================================================================================== *)
+
+(* ---- the engine's reset: every level is unwound ------------------------------------------- *)
+(* what Engine.reset does to a position: the empty stack, index 0 (nothing when the stack is
+   already empty: Top() fails first) *)
+Definition preset (p : list bytes * N) : list bytes * N := match fst p with [] => p | _ => ([], 0) end.
+
+Lemma cache_ok_pop_or_same ca : cache_ok ca -> cache_ok (match cache_pop ca with Ok c => c | _ => ca end).
+Proof.
+  intros H. destruct (pop_levels ca H) as (ca' & Hp & Hne & _). rewrite Hp. exact Hne.
+Qed.
+
+Lemma unwind_nonempty : forall fuel st ca,
+  s_path st <> [] -> (List.length (s_path st) <= fuel)%nat ->
+  exists ca', unwind fuel st ca = (set_path_idx st [] 0, ca', SOk) /\ (cache_ok ca -> cache_ok ca').
+Proof.
+  induction fuel as [|f IH]; intros st ca Hne Hlen.
+  - destruct (s_path st); [contradiction|cbn [List.length] in Hlen; lia].
+  - cbn [unwind]. unfold st_top, st_up. destruct (s_path st) as [|a l] eqn:Ep; [contradiction|].
+    destruct l as [|b l].
+    + eexists. split; [reflexivity|]. apply cache_ok_pop_or_same.
+    + set (st1 := set_path_idx st (removelast (a :: b :: l)) 0).
+      set (ca1 := match cache_pop ca with Ok c => c | _ => ca end).
+      destruct (IH st1 ca1) as (ca' & Hu & Hc).
+      * subst st1. cbn [s_path set_path_idx]. cbn [removelast]. destruct l; discriminate.
+      * subst st1. cbn [s_path set_path_idx].
+        assert (Hl : S (List.length (removelast (a :: b :: l))) = List.length (a :: b :: l))
+          by (apply length_removelast; discriminate).
+        cbn [List.length] in *. lia.
+      * exists ca'. split; [rewrite Hu; reflexivity|].
+        intros H. apply Hc. subst ca1. apply cache_ok_pop_or_same. exact H.
+Qed.
+
+Lemma eng_reset_inner_spec v v' s :
+  eng_reset_inner v = (v', s) ->
+  pos_of (v_st v') = preset (pos_of (v_st v)) /\ v_log v' = v_log v
+  /\ (cache_ok (v_ca v) -> cache_ok (v_ca v'))
+  /\ (s_path (v_st v) <> [] -> s = SOk).
+Proof.
+  unfold eng_reset_inner. destruct (s_path (v_st v)) as [|a l] eqn:Ep.
+  - cbn [List.length unwind]. unfold st_top. rewrite Ep. intros H. inversion H; subst.
+    unfold preset, pos_of. cbn [v_st vset_st vset_ca fst v_log v_ca]. rewrite Ep.
+    split; [reflexivity|]. split; [reflexivity|]. split; [auto|]. intros C; contradiction.
+  - destruct (unwind_nonempty (S (List.length (s_path (v_st v)))) (v_st v) (v_ca v)) as (ca' & Hu & Hc).
+    + rewrite Ep. discriminate.
+    + lia.
+    + rewrite Ep in Hu. rewrite Hu. unfold st_restart. cbn [s_path set_path_idx].
+      intros H. inversion H; subst. unfold preset, pos_of. cbn [v_st vset_st vset_ca fst v_log v_ca]. rewrite Ep.
+      split; [reflexivity|]. split; [reflexivity|]. split; [exact Hc|]. reflexivity.
+Qed.
+
+(* ---- traces: moves of the table and engine resets ------------------------------------------ *)
+Inductive pstep : Type := PMove (t : bytes) | PReset.
+Fixpoint pos_trace (p : list bytes * N) (tr : list pstep) : option (list bytes * N) :=
+  match tr with
+  | [] => Some p
+  | PMove t :: tr' => match nav_code p t with Some p' => pos_trace p' tr' | None => None end
+  | PReset :: tr' => pos_trace (preset p) tr'
+  end.
+Fixpoint trace_moves (tr : list pstep) : list bytes :=
+  match tr with [] => [] | PMove t :: tr' => t :: trace_moves tr' | PReset :: tr' => trace_moves tr' end.
+Fixpoint trace_resets (tr : list pstep) : nat :=
+  match tr with [] => O | PMove _ :: tr' => trace_resets tr' | PReset :: tr' => S (trace_resets tr') end.
+
+(* v' is reached from v by logged moves of the table and engine resets, in some interleaving *)
+Definition pos_reach (v v' : vmst) : Prop :=
+  cache_ok (v_ca v') /\
+  exists new tr, v_log v' = new ++ v_log v /\ trace_moves tr = log_moves new
+    /\ pos_trace (pos_of (v_st v)) tr = Some (pos_of (v_st v')).
+
+Lemma pos_trace_app a : forall p b,
+  pos_trace p (a ++ b) = match pos_trace p a with Some p' => pos_trace p' b | None => None end.
+Proof.
+  induction a as [|x a IH]; intros p b; [reflexivity|]. cbn [List.app pos_trace].
+  destruct x; [destruct (nav_code p t); [apply IH|reflexivity]|apply IH].
+Qed.
+Lemma trace_moves_app a b : trace_moves (a ++ b) = trace_moves a ++ trace_moves b.
+Proof. induction a as [|x a IH]; [reflexivity|]. destruct x; cbn [List.app trace_moves]; rewrite IH; reflexivity. Qed.
+Lemma trace_resets_app a b : trace_resets (a ++ b) = (trace_resets a + trace_resets b)%nat.
+Proof. induction a as [|x a IH]; [reflexivity|]. destruct x; cbn [List.app trace_resets]; rewrite IH; reflexivity. Qed.
+Lemma pos_trace_moves ms : forall p, pos_trace p (map PMove ms) = nav_fold nav_code p ms.
+Proof. induction ms as [|m ms IH]; intros p; [reflexivity|]. cbn [map pos_trace nav_fold]. destruct (nav_code p m); [apply IH|reflexivity]. Qed.
+Lemma trace_moves_map ms : trace_moves (map PMove ms) = ms.
+Proof. induction ms as [|m ms IH]; [reflexivity|]. cbn [map trace_moves]. rewrite IH. reflexivity. Qed.
+Lemma trace_resets_map ms : trace_resets (map PMove ms) = O.
+Proof. induction ms as [|m ms IH]; [reflexivity|]. exact IH. Qed.
+
+Lemma pr_follows a b : pos_follows a b -> pos_reach a b.
+Proof.
+  intros (C & new & L & F). split; [exact C|]. exists new, (map PMove (log_moves new)).
+  split; [exact L|]. split; [apply trace_moves_map|]. rewrite pos_trace_moves. exact F.
+Qed.
+Lemma pr_refl v : cache_ok (v_ca v) -> pos_reach v v.
+Proof. intros H. apply pr_follows, pf_refl, H. Qed.
+Lemma pr_trans a b c : pos_reach a b -> pos_reach b c -> pos_reach a c.
+Proof.
+  intros (C1 & n1 & t1 & L1 & M1 & T1) (C2 & n2 & t2 & L2 & M2 & T2). split; [exact C2|].
+  exists (n2 ++ n1), (t1 ++ t2). split; [rewrite L2, L1, app_assoc; reflexivity|].
+  split; [rewrite trace_moves_app, log_moves_app, M1, M2; reflexivity|].
+  rewrite pos_trace_app, T1. exact T2.
+Qed.
+Lemma pr_reset a b :
+  cache_ok (v_ca b) -> v_log b = v_log a -> pos_of (v_st b) = preset (pos_of (v_st a)) -> pos_reach a b.
+Proof.
+  intros C L P. split; [exact C|]. exists [], [PReset]. split; [exact L|]. split; [reflexivity|].
+  cbn [pos_trace]. rewrite P. reflexivity.
+Qed.
+Lemma pr_cache_ok a b : pos_reach a b -> cache_ok (v_ca b).
+Proof. intros [C _]. exact C. Qed.
+Lemma pf_cache_ok a b : pos_follows a b -> cache_ok (v_ca b).
+Proof. intros [C _]. exact C. Qed.
+
+Lemma eng_reset_inner_reach v v' s : cache_ok (v_ca v) -> eng_reset_inner v = (v', s) -> pos_reach v v'.
+Proof.
+  intros Hc H. destruct (eng_reset_inner_spec _ _ _ H) as (P & L & C & _).
+  apply pr_reset; [apply C; exact Hc|exact L|exact P].
+Qed.
+
+(* same position, same log, frames of the cache untouched: used for the engine's bookkeeping *)
+Lemma pf_same_frames v v' :
+  pos_of (v_st v') = pos_of (v_st v) -> v_log v' = v_log v -> c_frames (v_ca v') = c_frames (v_ca v) ->
+  cache_ok (v_ca v) -> pos_follows v v'.
+Proof.
+  intros P L F C. apply (pf_same _ _ []); [unfold cache_ok; rewrite F; exact C|exact L|reflexivity|exact P].
+Qed.
+
+(* ---- Vm.Render: its catch run on BrowseError is again a `run` ------------------------------ *)
+Lemma vm_render_follows fuel rs sep lang v v' r :
+  cache_ok (v_ca v) -> vm_render fuel rs sep lang v = (v', r) -> pos_follows v v'.
+Proof.
+  intros Hc H. unfold vm_render in H.
+  destruct (negb (getf (v_st v) FLAG_DIRTY)); [inversion H; subst; apply pf_refl; exact Hc|].
+  set (v0 := vset_st v (resetf (v_st v) FLAG_DIRTY)) in *.
+  assert (Q0 : quiet v v0) by (apply quiet_set_st; reflexivity).
+  destruct (where_sym (v_st v0)) as [|x sym] eqn:Ew; [inversion H; subst; apply quiet_pf; assumption|].
+  destruct (page_render (v_ca v0) (rs_tpl rs lang) (rs_menu rs lang) (v_pg v0) (x :: sym) (s_idx (v_st v0))) as [r0 pg'].
+  set (v1 := vlog (vset_pg v0 pg') (EvRender (x :: sym) (s_idx (v_st v0)) lang)) in *.
+  assert (Q1 : quiet v v1).
+  { eapply quiet_trans; [exact Q0|]. eapply quiet_trans; [apply quiet_set_pg|]. apply (quiet_vlog _ (EvRender _ _ _)). exact I. }
+  assert (F1 : pos_follows v v1) by (apply quiet_pf; assumption).
+  destruct r0 as [out|e|n]; try (inversion H; subst; exact F1).
+  destruct e; try (inversion H; subst; exact F1).
+  set (v2 := vset_pg v1 (vm_reset sep (v_pg v1))) in *.
+  assert (Q2 : quiet v v2) by (eapply quiet_trans; [exact Q1|apply quiet_set_pg]).
+  destruct (run fuel rs sep lang move_catch_code v2) as [[v3 b3] s3] eqn:Hr.
+  assert (F3 : pos_follows v v3).
+  { eapply pf_quiet_l; [exact Hc|exact Q2|]. eapply run_follows; [|exact Hr]. apply (quiet_cache_ok _ _ Q2 Hc). }
+  destruct s3; try (inversion H; subst; exact F3);
+    destruct (page_render (v_ca v3) (rs_tpl rs lang) (rs_menu rs lang) (v_pg v3) (where_sym (v_st v3)) (s_idx (v_st v3))) as [r1 pg1];
+    inversion H; subst;
+    (eapply pf_quiet_r; [exact F3|]; eapply quiet_trans; [apply quiet_set_pg|]; apply (quiet_vlog _ (EvRender _ _ _)); exact I).
+Qed.
+
+(* ---- engine bookkeeping ---------------------------------------------------------------------- *)
+Lemma set_code_eng_follows e code e' cont :
+  cache_ok (v_ca (e_v e)) -> set_code_eng e code = (e', cont) ->
+  pos_follows (e_v e) (e_v e') /\ e_initd e' = e_initd e
+  /\ (cont = true -> e_exiting e' = e_exiting e) /\ (code <> [] -> cont = true).
+Proof.
+  intros Hc H. unfold set_code_eng in H. destruct code as [|x code].
+  - destruct (getf (set_code (v_st (e_v e)) []) FLAG_DIRTY).
+    + destruct (cache_last (v_ca (e_v e))) as [lastv ca'] eqn:El. inversion H; subst. cbn [e_v e_initd].
+      split; [|split; [reflexivity|split; [discriminate|intros C; contradiction]]].
+      apply pf_same_frames; try reflexivity; [|exact Hc].
+      unfold cache_last in El. inversion El; subst. reflexivity.
+    + inversion H; subst. split; [|split; [reflexivity|split; [discriminate|intros C; contradiction]]].
+      apply pf_same_frames; try reflexivity. exact Hc.
+  - inversion H; subst. split; [|split; [reflexivity|split; [reflexivity|reflexivity]]].
+    apply pf_same_frames; try reflexivity. exact Hc.
+Qed.
+
+Lemma eng_flush_reach fuel rs c e e' out f :
+  cache_ok (v_ca (e_v e)) -> eng_flush fuel rs c e = (e', out, f) ->
+  pos_reach (e_v e) (e_v e') /\ e_initd e' = e_initd e /\ e_execd e' = e_execd e
+  /\ (e_exiting e = false -> pos_follows (e_v e) (e_v e') /\ e_exiting e' = false).
+Proof.
+  intros Hc H. unfold eng_flush in H.
+  destruct (negb (e_execd e)).
+  { inversion H; subst. split; [apply pr_refl; exact Hc|]. split; [reflexivity|]. split; [reflexivity|].
+    intros Hx. split; [apply pf_refl; exact Hc|exact Hx]. }
+  destruct (vm_render fuel rs (c_sep c) (s_lang (v_st (e_v e))) (e_v e)) as [v r] eqn:Hr.
+  pose proof (vm_render_follows _ _ _ _ _ _ _ Hc Hr) as F1.
+  pose proof (pf_cache_ok _ _ F1) as Hc1.
+  assert (Base : forall e1, e1 = eset_v e v ->
+            pos_reach (e_v e) (e_v e1) /\ e_initd e1 = e_initd e /\ e_execd e1 = e_execd e
+            /\ (e_exiting e = false -> pos_follows (e_v e) (e_v e1) /\ e_exiting e1 = false)).
+  { intros e1 ->. cbn [eset_v e_v e_initd e_execd e_exiting].
+    split; [apply pr_follows; exact F1|]. split; [reflexivity|]. split; [reflexivity|]. intros Hx. split; [exact F1|exact Hx]. }
+  assert (Reset : forall v2 s2 ex, eng_reset_inner v = (v2, s2) -> e_exiting e = true ->
+            let e1 := mkEng v2 (e_initd e) ex false (e_execd e) in
+            pos_reach (e_v e) (e_v e1) /\ e_initd e1 = e_initd e /\ e_execd e1 = e_execd e
+            /\ (e_exiting e = false -> pos_follows (e_v e) (e_v e1) /\ e_exiting e1 = false)).
+  { intros v2 s2 ex Hre Hx. cbn [e_v e_initd e_execd e_exiting].
+    split; [eapply pr_trans; [apply pr_follows; exact F1|eapply eng_reset_inner_reach; eassumption]|].
+    split; [reflexivity|]. split; [reflexivity|]. intros Hy. congruence. }
+  cbn [e_v eset_v e_exit e_exiting e_initd e_execd] in H.
+  destruct r as [o|er|n|]; try (inversion H; subst; apply Base; reflexivity).
+  - (* rendered *)
+    destruct ((0 <? c_out c) && (0 <? len (e_exit e)) && (c_out c <? w32 (len (e_exit e) + len o))).
+    + destruct (e_exiting e) eqn:Hx.
+      * destruct (eng_reset_inner v) as [v2 s2] eqn:Hre. inversion H; subst. eapply Reset; first [eassumption|reflexivity].
+      * inversion H; subst. apply Base; reflexivity.
+    + destruct (e_exiting e) eqn:Hx.
+      * destruct (eng_reset_inner v) as [v2 s2] eqn:Hre.
+        destruct s2; inversion H; subst; eapply Reset; first [eassumption|reflexivity].
+      * inversion H; subst. apply Base; reflexivity.
+  - (* render error *)
+    destruct ((0 <? c_out c) && (0 <? len (e_exit e)) && (c_out c <? w32 (len (e_exit e) + 0))).
+    + destruct (e_exiting e) eqn:Hx.
+      * destruct (eng_reset_inner v) as [v2 s2] eqn:Hre. inversion H; subst. eapply Reset; first [eassumption|reflexivity].
+      * inversion H; subst. apply Base; reflexivity.
+    + destruct (e_exit e) as [|x ex] eqn:Hex; [inversion H; subst; apply Base; reflexivity|].
+      destruct (e_exiting e) eqn:Hx.
+      * destruct (eng_reset_inner v) as [v2 s2] eqn:Hre.
+        destruct s2; inversion H; subst; eapply Reset; first [eassumption|reflexivity].
+      * inversion H; subst. apply Base; reflexivity.
+Qed.
+
+Lemma eng_exec_inner_follows fuel rs c e e' cont s :
+  cache_ok (v_ca (e_v e)) -> eng_exec_inner fuel rs c e = (e', cont, s) ->
+  pos_follows (e_v e) (e_v e') /\ e_initd e' = e_initd e
+  /\ (cont = true -> e_exiting e' = e_exiting e /\ s = SOk).
+Proof.
+  intros Hc H. unfold eng_exec_inner in H.
+  set (v0 := vset_st (e_v e) (set_code (v_st (e_v e)) [])) in *.
+  assert (Q0 : quiet (e_v e) v0) by (apply quiet_set_st; reflexivity).
+  pose proof (quiet_cache_ok _ _ Q0 Hc) as Hc0.
+  destruct (s_code (v_st (e_v e))) as [|x code].
+  { inversion H; subst. split; [apply quiet_pf; assumption|]. split; [reflexivity|discriminate]. }
+  destruct (run fuel rs (c_sep c) (s_lang (v_st v0)) (x :: code) v0) as [[v1 b] s1] eqn:Hr.
+  assert (F1 : pos_follows (e_v e) v1).
+  { eapply pf_quiet_l; [exact Hc|exact Q0|]. eapply run_follows; [exact Hc0|exact Hr]. }
+  destruct s1; try (inversion H; subst; split; [exact F1|split; [reflexivity|discriminate]]).
+  destruct (getf (v_st v1) FLAG_TERMINATE).
+  { inversion H; subst. split; [exact F1|]. split; [reflexivity|discriminate]. }
+  destruct (set_code_eng (mkEng v1 (e_initd e) (e_exit e) (e_exiting e) true) b) as [e2 cont2] eqn:Hs.
+  inversion H; subst.
+  destruct (set_code_eng_follows (mkEng v1 (e_initd e) (e_exit e) (e_exiting e) true) b e' cont (pf_cache_ok _ _ F1) Hs) as (F2 & I2 & X2 & _).
+  cbn [e_v e_initd e_exiting] in *.
+  split; [eapply pf_trans; eassumption|]. split; [exact I2|]. intros Hcont. split; [apply X2; exact Hcont|reflexivity].
+Qed.
+
+Lemma eng_reset_force_reach c e e' s :
+  cache_ok (v_ca (e_v e)) -> eng_reset_force c e = (e', s) ->
+  pos_reach (e_v e) (e_v e') /\ e_initd e' = e_initd e /\ e_exiting e' = e_exiting e.
+Proof.
+  intros Hc H. unfold eng_reset_force in H.
+  destruct (s_path (v_st (e_v e))).
+  { inversion H; subst. split; [apply pr_refl; exact Hc|]. split; reflexivity. }
+  set (v0 := vset_st (e_v e) (set_code (v_st (e_v e)) (encode (IMove (cfg_root c))))) in *.
+  assert (Q0 : quiet (e_v e) v0) by (apply quiet_set_st; reflexivity).
+  destruct (eng_reset_inner v0) as [v1 s1] eqn:Hre. inversion H; subst. cbn [e_v eset_v e_initd e_exiting].
+  split; [|split; reflexivity].
+  eapply pr_trans; [apply pr_follows, quiet_pf; [exact Hc|exact Q0]|].
+  eapply eng_reset_inner_reach; [|exact Hre]. apply (quiet_cache_ok _ _ Q0 Hc).
+Qed.
+
+(* no stale position to unwind when a new engine object takes over the session *)
+Definition no_stale (st : state) : Prop :=
+  s_code st <> [] \/ s_path st = [] \/ getf st FLAG_TERMINATE = true.
+
+Lemma run_first_none fuel c lang e : c_first c = None -> run_first fuel c lang e = (e, true, SOk).
+Proof. intros H. unfold run_first. rewrite H. reflexivity. Qed.
+
+Lemma eng_init_reach fuel rs c e input e' cont s :
+  (e_initd e = true \/ c_first c = None) -> cache_ok (v_ca (e_v e)) ->
+  eng_init fuel rs c e input = (e', cont, s) ->
+  pos_reach (e_v e) (e_v e')
+  /\ (s = SOk -> cont = true -> e_initd e' = true /\ e_exiting e' = false)
+  /\ (e_exiting e = false -> (e_initd e = true \/ (e_execd e = false /\ no_stale (v_st (e_v e)))) ->
+      pos_follows (e_v e) (e_v e')).
+Proof.
+  intros Hfirst Hc H. unfold eng_init in H.
+  (* prepare *)
+  assert (Hprep : exists e1 s1,
+            (if e_execd e then let '(e', _, f) := eng_flush fuel rs c e in (e', stat_of_f f) else (e, SOk)) = (e1, s1)
+            /\ pos_reach (e_v e) (e_v e1) /\ e_initd e1 = e_initd e
+            /\ (e_exiting e = false -> pos_follows (e_v e) (e_v e1))
+            /\ (e_execd e = false -> e1 = e)).
+  { destruct (e_execd e) eqn:Hx.
+    - destruct (eng_flush fuel rs c e) as [[ef o] f] eqn:Hf.
+      destruct (eng_flush_reach _ _ _ _ _ _ _ Hc Hf) as (R & I1 & _ & X).
+      exists ef, (stat_of_f f). split; [reflexivity|]. split; [exact R|]. split; [exact I1|].
+      split; [intros Hy; apply X; exact Hy|discriminate].
+    - exists e, SOk. split; [reflexivity|]. split; [apply pr_refl; exact Hc|]. split; [reflexivity|].
+      split; [intros _; apply pf_refl; exact Hc|reflexivity]. }
+  destruct Hprep as (e1 & s1 & Hp & R1 & I1 & X1 & U1). rewrite Hp in H.
+  pose proof (pr_cache_ok _ _ R1) as Hc1.
+  destruct s1; try (inversion H; subst; split; [exact R1|split; [discriminate|intros Hx _; apply X1; exact Hx]]).
+  cbn [e_v e_initd e_exiting e_exit e_execd] in H.
+  destruct (e_initd e1) eqn:Hi1.
+  { inversion H; subst. cbn [e_v e_initd e_exiting]. split; [exact R1|]. split; [auto|]. intros Hx _. apply X1. exact Hx. }
+  assert (Hf0 : c_first c = None) by (destruct Hfirst as [Hf|Hf]; [congruence|exact Hf]).
+  destruct (set_input (v_st (e_v e1)) (Some input)) as [st1|er|n] eqn:Hsi;
+    try (inversion H; subst; cbn [e_v]; split; [exact R1|split; [discriminate|intros Hx _; apply X1; exact Hx]]).
+  rewrite (run_first_none _ _ _ _ Hf0) in H. cbn [negb e_v eset_v] in H.
+  assert (Hst1 : st1 = set_input_raw (v_st (e_v e1)) (Some input)).
+  { unfold set_input in Hsi. destruct (INPUT_LIMIT <? len input); inversion Hsi; reflexivity. }
+  set (v3 := vset_st (e_v e1) st1) in *.
+  assert (Q3 : quiet (e_v e1) v3) by (apply quiet_set_st; rewrite Hst1; reflexivity).
+  pose proof (quiet_cache_ok _ _ Q3 Hc1) as Hc3.
+  set (e3 := eset_v (mkEng (e_v e1) false [] false false) v3) in *.
+  (* the stale-position unwinding *)
+  assert (Hun : exists e4 s4,
+            match s_code (v_st v3), s_path (v_st v3) with
+            | [], _ :: _ => if getf (v_st v3) FLAG_TERMINATE then (e3, SOk)
+                           else let '(v', s') := eng_reset_inner v3 in (eset_v e3 v', s')
+            | _, _ => (e3, SOk)
+            end = (e4, s4)
+            /\ pos_reach v3 (e_v e4) /\ e_initd e4 = false /\ e_exiting e4 = false
+            /\ (no_stale (v_st (e_v e1)) -> e4 = e3)).
+  { assert (Hsame : exists e4 s4, (e3, SOk) = (e4, s4) /\ pos_reach v3 (e_v e4) /\ e_initd e4 = false /\ e_exiting e4 = false
+                      /\ (no_stale (v_st (e_v e1)) -> e4 = e3)).
+    { exists e3, SOk. split; [reflexivity|]. split; [apply pr_refl; exact Hc3|]. auto. }
+    destruct (s_code (v_st v3)) as [|x cd] eqn:Ecode; [|exact Hsame].
+    destruct (s_path (v_st v3)) as [|a p] eqn:Epath; [exact Hsame|].
+    destruct (getf (v_st v3) FLAG_TERMINATE) eqn:Eterm; [exact Hsame|].
+    destruct (eng_reset_inner v3) as [v4 s4] eqn:Hre.
+    exists (eset_v e3 v4), s4. split; [reflexivity|]. split; [eapply eng_reset_inner_reach; eassumption|].
+    split; [reflexivity|]. split; [reflexivity|].
+    intros [Hn|[Hn|Hn]]; exfalso; subst v3; cbn [v_st vset_st] in *; rewrite Hst1 in *;
+      cbn [s_code s_path set_input_raw] in *; [congruence|congruence|].
+    unfold getf in *. cbn [s_flags set_input_raw] in *. congruence. }
+  destruct Hun as (e4 & s4 & Hu & R4 & I4 & X4 & U4).
+  change (e_v e3) with v3 in H. rewrite Hu in H.
+  pose proof (pr_cache_ok _ _ R4) as Hc4.
+  assert (R14 : pos_reach (e_v e) (e_v e4)).
+  { eapply pr_trans; [exact R1|]. eapply pr_trans; [apply pr_follows, quiet_pf; [exact Hc1|exact Q3]|exact R4]. }
+  assert (F14 : e_exiting e = false -> (e_initd e = true \/ (e_execd e = false /\ no_stale (v_st (e_v e)))) ->
+                pos_follows (e_v e) (e_v e4)).
+  { intros Hx [Hy|[Hy Hz]]; [congruence|]. rewrite (U1 Hy) in *. rewrite (U4 Hz). cbn [e_v e3].
+    apply quiet_pf; [exact Hc|exact Q3]. }
+  destruct s4; try (inversion H; subst; split; [exact R14|split; [discriminate|exact F14]]).
+  assert (Hsc : exists e5 cont5,
+            match s_code (v_st (e_v e4)) with
+            | [] => set_code_eng e4 (encode (IMove (cfg_root c)))
+            | _ => (e4, true)
+            end = (e5, cont5)
+            /\ pos_follows (e_v e4) (e_v e5) /\ e_initd e5 = e_initd e4 /\ e_exiting e5 = e_exiting e4).
+  { destruct (s_code (v_st (e_v e4))).
+    - destruct (set_code_eng e4 (encode (IMove (cfg_root c)))) as [e5 cont5] eqn:Hs.
+      destruct (set_code_eng_follows _ _ _ _ Hc4 Hs) as (F5 & I5 & X5 & C5).
+      exists e5, cont5. split; [reflexivity|]. split; [exact F5|]. split; [exact I5|].
+      apply X5, C5. destruct (encode_shape (IMove (cfg_root c))) as (a & b & t & ->). discriminate.
+    - exists e4, true. split; [reflexivity|]. split; [apply pf_refl; exact Hc4|]. auto. }
+  destruct Hsc as (e5 & cont5 & Hs5 & F5 & I5 & X5). rewrite Hs5 in H.
+  inversion H; subst. cbn [e_v e_initd e_exiting].
+  assert (Q6 : quiet (e_v e5) (vset_st (e_v e5) (set_input_raw (v_st (e_v e5)) (s_input (v_st (e_v e1))))))
+    by (apply quiet_set_st; reflexivity).
+  split; [eapply pr_trans; [exact R14|apply pr_follows; eapply pf_quiet_r; [exact F5|exact Q6]]|].
+  split; [intros _ _; split; [reflexivity|congruence]|].
+  intros Hx Hy. eapply pf_trans; [apply F14; assumption|]. eapply pf_quiet_r; [exact F5|exact Q6].
+Qed.
+
+Lemma eng_exec_reach fuel rs c e input e' cont s :
+  (e_initd e = true \/ c_first c = None) -> cache_ok (v_ca (e_v e)) ->
+  eng_exec fuel rs c e input = (e', cont, s) ->
+  pos_reach (e_v e) (e_v e')
+  /\ (cont = true -> e_initd e' = true /\ e_exiting e' = false)
+  /\ (e_exiting e = false -> (e_initd e = true \/ (e_execd e = false /\ no_stale (v_st (e_v e)))) ->
+      (c_reset_empty c && (len input =? 0)) = false -> pos_follows (e_v e) (e_v e')).
+Proof.
+  intros Hfirst Hc H. unfold eng_exec in H.
+  destruct (eng_init fuel rs c e input) as [[e1 cont0] s0] eqn:Hi.
+  destruct (eng_init_reach _ _ _ _ _ _ _ _ Hfirst Hc Hi) as (R1 & I1 & F1).
+  pose proof (pr_cache_ok _ _ R1) as Hc1.
+  destruct s0; try (inversion H; subst; split; [exact R1|split; [discriminate|intros; apply F1; assumption]]).
+  destruct cont0; cbn [negb] in H; [|inversion H; subst; split; [exact R1|split; [discriminate|intros; apply F1; assumption]]].
+  destruct (I1 eq_refl eq_refl) as [Hin1 Hex1].
+  assert (Hrf : exists e2 s2,
+            (if c_reset_empty c && (len input =? 0) then eng_reset_force c e1 else (e1, SOk)) = (e2, s2)
+            /\ pos_reach (e_v e1) (e_v e2) /\ e_initd e2 = true /\ e_exiting e2 = false
+            /\ ((c_reset_empty c && (len input =? 0)) = false -> e2 = e1)).
+  { destruct (c_reset_empty c && (len input =? 0)).
+    - destruct (eng_reset_force c e1) as [e2 s2] eqn:Hf.
+      destruct (eng_reset_force_reach _ _ _ _ Hc1 Hf) as (R & I & X).
+      exists e2, s2. split; [reflexivity|]. split; [exact R|]. split; [congruence|]. split; [congruence|discriminate].
+    - exists e1, SOk. split; [reflexivity|]. split; [apply pr_refl; exact Hc1|]. auto. }
+  destruct Hrf as (e2 & s2 & Hf & R2 & I2 & X2 & U2). rewrite Hf in H.
+  pose proof (pr_cache_ok _ _ R2) as Hc2.
+  assert (R12 : pos_reach (e_v e) (e_v e2)) by (eapply pr_trans; eassumption).
+  assert (F12 : e_exiting e = false -> (e_initd e = true \/ (e_execd e = false /\ no_stale (v_st (e_v e)))) ->
+                (c_reset_empty c && (len input =? 0)) = false -> pos_follows (e_v e) (e_v e2)).
+  { intros Hx Hy Hz. rewrite (U2 Hz). apply F1; assumption. }
+  destruct s2; try (inversion H; subst; split; [exact R12|split; [discriminate|exact F12]]).
+  destruct ((0 <? len input) && negb (valid_input_b input)).
+  { inversion H; subst. split; [exact R12|]. split; [auto|exact F12]. }
+  destruct (set_input (v_st (e_v e2)) (Some input)) as [st'|er|n] eqn:Hsi;
+    try (inversion H; subst; split; [exact R12|split; [discriminate|exact F12]]).
+  assert (Hst : st' = set_input_raw (v_st (e_v e2)) (Some input)).
+  { unfold set_input in Hsi. destruct (INPUT_LIMIT <? len input); inversion Hsi; reflexivity. }
+  set (e3 := eset_v e2 (vset_st (e_v e2) st')) in *.
+  assert (Q3 : quiet (e_v e2) (e_v e3)) by (apply quiet_set_st; rewrite Hst; reflexivity).
+  destruct (eng_exec_inner_follows fuel rs c e3 e' cont s (quiet_cache_ok _ _ Q3 Hc2) H) as (F4 & I4 & X4).
+  assert (F24 : pos_follows (e_v e2) (e_v e')) by (eapply pf_quiet_l; [exact Hc2|exact Q3|exact F4]).
+  split; [eapply pr_trans; [exact R12|apply pr_follows; exact F24]|].
+  split.
+  - intros Hcont. destruct (X4 Hcont) as [X5 _]. split; [rewrite I4; exact I2|rewrite X5; exact X2].
+  - intros Hx Hy Hz. eapply pf_trans; [apply F12; assumption|exact F24].
+Qed.
+
+(* ---- requests ---------------------------------------------------------------------------------- *)
+Lemma request_long_reach fuel rs c e input e' resp :
+  (e_initd e = true \/ c_first c = None) -> cache_ok (v_ca (e_v e)) ->
+  request_long fuel rs c e input = (e', resp) ->
+  pos_reach (e_v e) (e_v e')
+  /\ (e_exiting e = false -> (e_initd e = true \/ (e_execd e = false /\ no_stale (v_st (e_v e)))) ->
+      (c_reset_empty c && (len input =? 0)) = false -> r_cont resp = true ->
+      pos_follows (e_v e) (e_v e')).
+Proof.
+  intros Hfirst Hc H. unfold request_long in H.
+  destruct (eng_exec fuel rs c e input) as [[e1 cont] s] eqn:He.
+  destruct (eng_exec_reach _ _ _ _ _ _ _ _ Hfirst Hc He) as (R1 & I1 & F1).
+  pose proof (pr_cache_ok _ _ R1) as Hc1.
+  assert (Hflush : forall e2 out f, eng_flush fuel rs c e1 = (e2, out, f) ->
+            pos_reach (e_v e) (e_v e2)
+            /\ (e_exiting e = false -> (e_initd e = true \/ (e_execd e = false /\ no_stale (v_st (e_v e)))) ->
+                (c_reset_empty c && (len input =? 0)) = false -> cont = true -> pos_follows (e_v e) (e_v e2))).
+  { intros e2 out f Hf. destruct (eng_flush_reach _ _ _ _ _ _ _ Hc1 Hf) as (R2 & _ & _ & X2).
+    split; [eapply pr_trans; eassumption|]. intros Hx Hy Hz Hcont.
+    destruct (I1 Hcont) as [_ Hex]. destruct (X2 Hex) as [F2 _].
+    eapply pf_trans; [apply F1; assumption|exact F2]. }
+  destruct s.
+  - destruct (eng_flush fuel rs c e1) as [[e2 out] f] eqn:Hf. inversion H; subst. cbn [r_cont]. eapply Hflush; reflexivity.
+  - destruct (eng_flush fuel rs c e1) as [[e2 out] f] eqn:Hf. inversion H; subst. cbn [r_cont]. eapply Hflush; reflexivity.
+  - inversion H; subst. cbn [r_cont]. split; [exact R1|]. intros; apply F1; assumption.
+  - inversion H; subst. cbn [r_cont]. split; [exact R1|]. intros; apply F1; assumption.
+Qed.
+
+(* persisted operation: the session record the request starts from *)
+Definition start_snap (c : config) (p : pworld) : snapshot :=
+  match pw_store p with Some sc => sc | None => (fresh_state c, fresh_cache c) end.
+
+Lemma new_engine_facts c p :
+  let e := new_engine c (pw_store p) (pw_w p) (pw_log p) in
+  v_st (e_v e) = fst (start_snap c p) /\ v_ca (e_v e) = snd (start_snap c p) /\ v_log (e_v e) = pw_log p
+  /\ e_initd e = false /\ e_execd e = false /\ e_exiting e = false.
+Proof.
+  unfold new_engine, start_snap. destruct (pw_store p) as [[s ca]|]; cbn; auto 10.
+Qed.
+
+Lemma fresh_state_pos c : pos_of (fresh_state c) = ([], 0).
+Proof.
+  unfold fresh_state. destruct (s_lang _); [rewrite pos_setf|]; rewrite st_set_language_pos; reflexivity.
+Qed.
+Lemma fresh_cache_ok c : cache_ok (fresh_cache c).
+Proof. unfold cache_ok, fresh_cache, new_cache. cbn [c_frames]. discriminate. Qed.
+
+Definition fstat_fatal (f : fstat) : bool := match f with FPanic _ | FFuel => true | _ => false end.
+
+Lemma request_persisted_reach fuel rs c p input p' resp :
+  c_first c = None -> cache_ok (snd (start_snap c p)) ->
+  request_persisted fuel rs c p input = (p', resp) ->
+  exists st' ca', pw_store p' = Some (st', ca') /\ cache_ok ca'
+  /\ ((* the record was not rewritten (panic, out of fuel, engine not initialised) *)
+      (pos_of st' = pos_of (fst (start_snap c p)) /\ ca' = snd (start_snap c p))
+      \/ exists new tr, pw_log p' = new ++ pw_log p /\ trace_moves tr = log_moves new
+           /\ pos_trace (pos_of (fst (start_snap c p))) tr = Some (pos_of st'))
+  /\ (no_stale (fst (start_snap c p)) -> (c_reset_empty c && (len input =? 0)) = false ->
+      r_cont resp = true -> fstat_fatal (r_flush resp) = false ->
+      exists new, pw_log p' = new ++ pw_log p
+        /\ nav_fold nav_code (pos_of (fst (start_snap c p))) (log_moves new) = Some (pos_of st')).
+Proof.
+  intros Hfirst Hc0 H. unfold request_persisted in H.
+  destruct (new_engine_facts c p) as (Est & Eca & Elog & Einit & Eexecd & Eexiting).
+  set (e := new_engine c (pw_store p) (pw_w p) (pw_log p)) in *.
+  assert (Hc : cache_ok (v_ca (e_v e))) by (rewrite Eca; exact Hc0).
+  set (store0 := match pw_store p with Some s => Some s | None => Some (snap_of (v_st (e_v e)) (v_ca (e_v e))) end) in *.
+  assert (Hs0 : exists st0 ca0, store0 = Some (st0, ca0) /\ pos_of st0 = pos_of (fst (start_snap c p))
+                                /\ ca0 = snd (start_snap c p)).
+  { subst store0. rewrite Est, Eca. unfold start_snap. destruct (pw_store p) as [[s ca]|].
+    - exists s, ca. auto.
+    - eexists. eexists. split; [reflexivity|]. split; reflexivity. }
+  destruct Hs0 as (st0 & ca0 & Hs0 & Hp0 & Hca0).
+  assert (Keep : forall w lg t r, (mkPw store0 w lg t, r) = (p', resp) -> fstat_fatal (r_flush r) = true \/ r_cont r = false ->
+            exists st' ca', pw_store p' = Some (st', ca') /\ cache_ok ca'
+            /\ ((pos_of st' = pos_of (fst (start_snap c p)) /\ ca' = snd (start_snap c p))
+                \/ exists new tr, pw_log p' = new ++ pw_log p /\ trace_moves tr = log_moves new
+                     /\ pos_trace (pos_of (fst (start_snap c p))) tr = Some (pos_of st'))
+            /\ (no_stale (fst (start_snap c p)) -> (c_reset_empty c && (len input =? 0)) = false ->
+                r_cont resp = true -> fstat_fatal (r_flush resp) = false ->
+                exists new, pw_log p' = new ++ pw_log p
+                  /\ nav_fold nav_code (pos_of (fst (start_snap c p))) (log_moves new) = Some (pos_of st'))).
+  { intros w lg t r Hk Hbad. inversion Hk; subst p' resp. cbn [pw_store]. exists st0, ca0.
+    split; [exact Hs0|]. split; [rewrite Hca0; exact Hc0|]. split; [left; auto|].
+    intros _ _ Hcont Hfl. destruct Hbad as [Hb|Hb]; congruence. }
+  destruct (eng_exec fuel rs c e input) as [[e1 cont] s] eqn:He.
+  destruct (eng_exec_reach _ _ _ _ _ _ _ _ (or_intror Hfirst) Hc He) as (R1 & I1 & F1).
+  pose proof (pr_cache_ok _ _ R1) as Hc1.
+  assert (Main : forall e2 out f, eng_flush fuel rs c e1 = (e2, out, f) ->
+            (match f with
+             | FPanic _ | FFuel => (mkPw store0 (v_w (e_v e2)) (v_log (e_v e2)) (pw_taint p || v_taint (e_v e2)), mkResp cont s out f)
+             | _ => (mkPw (match eng_finish e2 with Some sn => Some sn | None => store0 end)
+                          (v_w (e_v e2)) (v_log (e_v e2)) (pw_taint p || v_taint (e_v e2)), mkResp cont s out f)
+             end) = (p', resp) ->
+            exists st' ca', pw_store p' = Some (st', ca') /\ cache_ok ca'
+            /\ ((pos_of st' = pos_of (fst (start_snap c p)) /\ ca' = snd (start_snap c p))
+                \/ exists new tr, pw_log p' = new ++ pw_log p /\ trace_moves tr = log_moves new
+                     /\ pos_trace (pos_of (fst (start_snap c p))) tr = Some (pos_of st'))
+            /\ (no_stale (fst (start_snap c p)) -> (c_reset_empty c && (len input =? 0)) = false ->
+                r_cont resp = true -> fstat_fatal (r_flush resp) = false ->
+                exists new, pw_log p' = new ++ pw_log p
+                  /\ nav_fold nav_code (pos_of (fst (start_snap c p))) (log_moves new) = Some (pos_of st'))).
+  { intros e2 out f Hf Hk.
+    destruct (eng_flush_reach _ _ _ _ _ _ _ Hc1 Hf) as (R2 & I2 & _ & X2).
+    assert (R02 : pos_reach (e_v e) (e_v e2)) by (eapply pr_trans; eassumption).
+    destruct (fstat_fatal f) eqn:Hfat.
+    { destruct f; try discriminate; eapply Keep; try exact Hk; left; reflexivity. }
+    assert (Hk' : (mkPw (match eng_finish e2 with Some sn => Some sn | None => store0 end)
+                        (v_w (e_v e2)) (v_log (e_v e2)) (pw_taint p || v_taint (e_v e2)), mkResp cont s out f) = (p', resp))
+      by (destruct f; try discriminate; exact Hk).
+    clear Hk. unfold eng_finish in Hk'. destruct (e_initd e2) eqn:Hi2.
+    - inversion Hk'; subst p' resp. cbn [pw_store pw_log r_cont r_flush].
+      exists (set_input_raw (v_st (e_v e2)) None), (v_ca (e_v e2)).
+      split; [reflexivity|]. split; [apply (pr_cache_ok _ _ R02)|].
+      destruct R02 as (_ & new & tr & L & M & T). rewrite Est, Elog in *.
+      split; [right; exists new, tr; auto|].
+      intros Hns Hre Hcont _. destruct (I1 Hcont) as [_ Hex1]. destruct (X2 Hex1) as [F2 _].
+      assert (F02 : pos_follows (e_v e) (e_v e2)).
+      { eapply pf_trans; [apply F1; [exact Eexiting|right; split; [exact Eexecd|exact Hns]|exact Hre]|exact F2]. }
+      destruct F02 as (_ & new2 & L2 & N2). rewrite Est, Elog in *. exists new2. auto.
+    - eapply Keep; [exact Hk'|]. right. cbn [r_cont].
+      destruct cont; [|reflexivity]. destruct (I1 eq_refl) as [Hi1 _]. congruence. }
+  destruct s.
+  - destruct (eng_flush fuel rs c e1) as [[e2 out] f] eqn:Hf. eapply Main; [reflexivity|exact H].
+  - destruct (eng_flush fuel rs c e1) as [[e2 out] f] eqn:Hf. eapply Main; [reflexivity|exact H].
+  - eapply Keep; [exact H|left; reflexivity].
+  - eapply Keep; [exact H|left; reflexivity].
+Qed.
+
+(* ---- lateral moves ------------------------------------------------------------------------------- *)
+Lemma lateral_only_index_lemma : forall t st ca st' ca' sym r,
+  t = t_next \/ t = t_prev -> apply_target t st ca = (st', ca', sym, r) ->
+  (* only the page index can change: stack, cache and every other field stay *)
+  st' = set_path_idx st (s_path st) (s_idx st') /\ ca' = ca
+  (* a failing call changes nothing at all; "<" on the first page fails with IndexError *)
+  /\ (r <> SOk -> st' = st)
+  /\ (t = t_prev -> s_path st <> [] -> s_idx st = 0 -> st' = st /\ r = SErr EIndex (Some msg_index))
+  /\ (r = SOk -> s_idx st' = if bytes_eqb t t_next then w16 (s_idx st + 1) else s_idx st - 1).
+Proof.
+  intros t st ca st' ca' sym r [-> | ->].
+  - rewrite apply_next. unfold do_next, st_next. destruct (s_path st) eqn:Ep; intros H; inversion H; subst.
+    + split; [rewrite <- Ep; apply state_eta|]. split; [reflexivity|]. split; [reflexivity|]. split; [discriminate|discriminate].
+    + cbn [s_idx set_path_idx]. rewrite <- Ep. split; [reflexivity|]. split; [reflexivity|].
+      split; [intros C; contradiction|]. split; [discriminate|reflexivity].
+  - rewrite apply_prev. unfold do_prev, st_previous. destruct (s_path st) eqn:Ep.
+    + intros H; inversion H; subst. split; [rewrite <- Ep; apply state_eta|]. split; [reflexivity|]. split; [reflexivity|].
+      split; [intros _ C; contradiction|discriminate].
+    + destruct (s_idx st =? 0) eqn:E0; intros H; inversion H; subst.
+      * split; [rewrite <- Ep; apply state_eta|]. split; [reflexivity|]. split; [reflexivity|].
+        split; [auto|discriminate].
+      * cbn [s_idx set_path_idx]. rewrite <- Ep. split; [reflexivity|]. split; [reflexivity|].
+        split; [intros C; contradiction|]. split; [intros _ _ Hz; rewrite Hz in E0; discriminate|reflexivity].
+Qed.
+
+(* the same read off the table: a logged ">" or "<" leaves the stack alone *)
+Lemma nav_code_lateral p t p' :
+  t = t_next \/ t = t_prev -> nav_code p t = Some p' -> fst p' = fst p.
+Proof.
+  intros [-> | ->]; rewrite nav_code_not_up by reflexivity.
+  - rewrite nav_spec_next. destruct (fst p) eqn:E; [discriminate|]. intros H; inversion H. cbn [fst]. reflexivity.
+  - rewrite nav_spec_prev. destruct (fst p) eqn:E; [discriminate|]. destruct (snd p =? 0); [discriminate|].
+    intros H; inversion H. cbn [fst]. reflexivity.
+Qed.
+
+(* ---- the entry function is outside the table ------------------------------------------------------ *)
+(* runFirst pushes "_first" with State.Down and pops it with State.Up: no move is logged, the stack
+   is restored, but both calls set the page index to 0 *)
+Lemma first_resets_index_example :
+  exists c e, c_first c <> None /\
+    let '(e', _, _) := run_first 10 c None e in
+    pos_of (v_st (e_v e)) = ([s2b "root"], 2) /\ pos_of (v_st (e_v e')) = ([s2b "root"], 0)
+    /\ log_moves (v_log (e_v e')) = log_moves (v_log (e_v e)).
+Proof.
+  exists (mkCfg 0 (s2b "root") 8 0 [] [] false (Some [mkFres (s2b "hello") false 0 [] [] false])).
+  exists (mkEng (mkVm (set_path_idx (new_state 8) [s2b "root"] 2) (cache_push (new_cache 0)) (new_vm_page 0 []) [] [] false)
+                false [] false false).
+  split; [discriminate|]. vm_compute. repeat split.
+Qed.
+
+(* ================================================================================== *)
+(* Fixtures for the Examples of props/C03.v and props/C04eng.v                          *)
+(* ================================================================================== *)
+Definition ex_app : app :=
+  mkApp [(s2b "root", encode_prog [IHalt]); (s2b "foo", encode_prog [IHalt]); (s2b "bar", encode_prog [IHalt]);
+         (s2b "_catch", encode_prog [IHalt])] [] [] [].
+(* the machine stopped at root's HALT (WAIT set), on page `idx`, with the client's answer `input` *)
+Definition ex_vm (idx : N) (input : bytes) : vmst :=
+  let v0 := mkVm (set_input_raw (new_state 8) (Some [])) (new_cache 0) (vm_reset [] new_page) [] [] false in
+  let '(v1, _, _) := run 10 (app_rsrc ex_app) [] None (encode (IMove (s2b "root"))) v0 in
+  vset_st v1 (set_path_idx (set_input_raw (v_st v1) (Some input)) (s_path (v_st v1)) idx).
+
+(* corpus case `dupsel` of go/cmd/vh/engine.go *)
+Definition ex_eng_app : app :=
+  mkApp [(s2b "root", encode_prog [IHalt; IInCmp (s2b "foo") (s2b "1"); IInCmp (s2b "bar") (s2b "1"); IInCmp (s2b "baz") (s2b "*")]);
+         (s2b "foo", encode_prog [IHalt; IInCmp (s2b "_") (s2b "0")]);
+         (s2b "bar", encode_prog [IHalt; IInCmp (s2b "_") (s2b "0")]);
+         (s2b "baz", encode_prog [IHalt; IInCmp (s2b "_") (s2b "0")]);
+         (s2b "_catch", encode_prog [IHalt; IInCmp (s2b "_") (s2b "*")])]
+        [(s2b "root", s2b "root"); (s2b "foo", s2b "foo"); (s2b "bar", s2b "bar"); (s2b "baz", s2b "baz"); (s2b "_catch", s2b "catch")]
+        [] [].
+Definition ex_cfg : config := mkCfg 0 (s2b "root") 1 0 [] [] false None.
+Fixpoint ex_long (e : engine) (inputs : list bytes) : engine :=
+  match inputs with
+  | [] => e
+  | i :: r => ex_long (fst (request_long 200 (app_rsrc ex_eng_app) ex_cfg e i)) r
+  end.
+Fixpoint ex_pers (p : pworld) (inputs : list bytes) : pworld :=
+  match inputs with
+  | [] => p
+  | i :: r => ex_pers (fst (request_persisted 200 (app_rsrc ex_eng_app) ex_cfg p i)) r
+  end.
